@@ -4,6 +4,7 @@ import (
 	"encoding/binary"
 	"errors"
 	"fmt"
+	"math"
 	"strings"
 
 	"github.com/Fantom-foundation/lachesis-base/eventcheck"
@@ -235,7 +236,11 @@ func limitFor(numClass, sizeClass int, m *modelOut, w *world, ops []op) dag.Metr
 	case limExact:
 		l.Num = idx.Event(m.peakNum)
 	default:
+		// "ample" also means the values callers use for "no limit" (a deterministic function of the case)
 		l.Num = idx.Event(pushes + 3)
+		if pushes%3 == 1 {
+			l.Num = idx.Event(math.MaxUint32)
+		}
 	}
 	switch sizeClass {
 	case lim0:
@@ -249,7 +254,16 @@ func limitFor(numClass, sizeClass int, m *modelOut, w *world, ops []op) dag.Metr
 	case limExact:
 		l.Size = m.peakSize
 	default:
-		l.Size = bytes + 10
+		switch (pushes + len(ops)) % 4 {
+		case 0:
+			l.Size = bytes + 10
+		case 1:
+			l.Size = math.MaxUint64
+		case 2:
+			l.Size = 1 << 63
+		default:
+			l.Size = math.MaxInt64
+		}
 	}
 	return l
 }
